@@ -25,3 +25,6 @@ def run(ctx):
     ctx.guard(k21_match_overrides, ctx, "C02")
     from ..rules_misc import text_consumers_rule
     ctx.guard(text_consumers_rule, ctx, "C02.text-consumers")
+    # every class must compile the pattern of its own structure(): what the accepted language rests on
+    from ..rules_ast import persistent_state_rule
+    ctx.guard(persistent_state_rule, ctx, "C02.own-pattern")
